@@ -21,6 +21,8 @@ one() {
   if ! (cd $d/repo && patch -p1 -s -f < "$patch" >/dev/null 2>$d/err); then echo "$name: PATCH-FAILS $(head -2 $d/err | tr '\n' ' ')"; rm -rf $d; return; fi
   fired=""
   plist=$(echo $props | tr ' ' ',')
+  # MS_BASELINE_DIR: also record the per-slot obligation counts of this variant (tools/refcounts_min.py)
+  if [ -n "${MS_BASELINE_DIR:-}" ]; then mkdir -p $MS_BASELINE_DIR; export GTVERIF_WRITE_BASELINE=$MS_BASELINE_DIR/$name.json; fi
   all=$(GTVERIF_REPO=$d/repo GTVERIF_VERIF=$d/verif $BIN sweep -props "$plist" 2>&1)
   for p in $props; do
     rc=$(echo "$all" | grep "^== $p rc=" | sed 's/.*rc=//')
